@@ -42,7 +42,16 @@ EXTENDS Gen_Malformed      \* (brings Gen_WireResp, the annotated encoder and it
 
 PV == 4     \* protocol version of the live sessions
 
-Cfgs == {"plain", "auth", "chain", "keyspace", "tokenaware"}
+\* the configuration dimension: ClusterConfig as the application may set it
+\*   noschema / nostatus / notopology : Events.DisableSchemaEvents / DisableNodeStatusEvents / DisableTopologyEvents (REGISTER
+\*        names the other two kinds);   noevents : all three (no REGISTER is sent at all)
+\*   nolookup : DisableInitialHostLookup (no ring refresh);   ignorepeer : IgnorePeerAddr
+\*   nocontrol : no control connection (the pool connection is the only one)
+\*   snappy : a compressor is configured and negotiated
+\* A node - or a proxy, or another cluster behind the same address - need not know any of it: it may still push every kind
+\* of EVENT on stream -1 and answer anything.
+Cfgs == {"plain", "auth", "chain", "keyspace", "tokenaware", "noschema", "nostatus", "notopology", "noevents", "nolookup", "ignorepeer",
+         "nocontrol", "snappy"}
 \* positions that exist (or differ) only in a non-plain configuration
 CfgSpecific(cfg) ==
   CASE cfg = "auth" -> {"ctl.startup", "ctl.auth_response", "pool.startup", "pool.auth_response"}
@@ -50,6 +59,14 @@ CfgSpecific(cfg) ==
     [] cfg = "keyspace" -> {"pool.use"}
     \* a token-aware host selection policy asks the PREPARED answer for the routing key before the request is sent
     [] cfg = "tokenaware" -> {"app.prepare", "app.batch_prepare", "app.execute"}
+    [] cfg \in {"noschema", "nostatus", "notopology"} -> {"ctl.register", "unsolicited.event", "unsolicited.stream0"}
+    [] cfg = "noevents" -> {"ctl.query_local", "ctl.refresh_local", "unsolicited.event", "unsolicited.stream0"}
+    [] cfg = "nolookup" -> {"ctl.register", "pool.options", "app.query", "unsolicited.event"}
+    [] cfg = "ignorepeer" -> {"ctl.refresh_peers", "unsolicited.event"}
+    \* (nocontrol is the driver's unexported test-only switch: what needs Session.control - schema / node event handlers, the
+    \* keyspace metadata behind a routing key - is not exercised with it: a nil control connection is not the network's doing)
+    [] cfg = "nocontrol" -> {"pool.options", "pool.startup", "pool.heartbeat", "app.execute", "unsolicited.stream0"}
+    [] cfg = "snappy" -> {"ctl.options", "ctl.startup", "pool.startup", "app.query", "app.execute", "unsolicited.event"}
     [] OTHER -> {}
 
 \* the request outstanding at a position
@@ -83,8 +100,8 @@ Legit(cfg, pos) ==
     [] pos = "ctl.startup" -> IF AuthCfg(cfg) THEN {<<"AUTHENTICATE", "ctl.auth_response">>} ELSE {<<"READY", "ctl.query_local">>}
     [] pos = "ctl.auth_response" -> IF cfg = "chain" THEN {<<"AUTH_CHALLENGE", "ctl.auth_response2">>} ELSE {<<"AUTH_SUCCESS", "ctl.query_local">>}
     [] pos = "ctl.auth_response2" -> {<<"AUTH_SUCCESS", "ctl.query_local">>}
-    [] pos = "ctl.query_local" -> {<<"RESULT_ROWS", "ctl.register">>}
-    [] pos = "ctl.register" -> {<<"READY", "ctl.refresh_local">>}
+    [] pos = "ctl.query_local" -> {<<"RESULT_ROWS", IF cfg = "noevents" THEN "ctl.refresh_local" ELSE "ctl.register">>}
+    [] pos = "ctl.register" -> {<<"READY", IF cfg = "nolookup" THEN "pool.options" ELSE "ctl.refresh_local">>}
     [] pos = "ctl.refresh_local" -> {<<"RESULT_ROWS", "ctl.refresh_peers">>}
     [] pos = "ctl.refresh_peers" -> {<<"RESULT_ROWS", "pool.options">>}
     [] pos = "pool.options" -> {<<"SUPPORTED", "pool.startup">>}
@@ -294,15 +311,16 @@ Run(cfg, pos) == [t |-> "run", cfg |-> cfg, pos |-> pos, req |-> Req(pos), varia
 CaseOf(st, n, kind, bytes) == [st EXCEPT !.t = "case", !.variant = n, !.kind = kind, !.expected = kind \in Expected(st.req), !.bytes = bytes]
 Wanted(cfg, pos) == Tier = "thorough" \/ cfg = "plain" \/ pos \in CfgSpecific(cfg)
 
-PInit == \E cfg \in Cfgs : p = Run(cfg, "ctl.options")
+PInit == \E cfg \in Cfgs : p = Run(cfg, IF cfg = "nocontrol" THEN "pool.options" ELSE "ctl.options")
 PNext ==
   /\ p.t = "run"
   /\ \/ \E a \in Legit(p.cfg, p.pos) : p' = Run(p.cfg, a[2])                  \* the node answers as the protocol says
      \/ p.pos = "idle" /\ \E q \in FromIdle : p' = Run(p.cfg, q)             \* the session goes on
-     \/ /\ p.pos \in MutPositions /\ p.cfg = "plain"                         \* the node answers with a malformed frame
+     \/ /\ p.pos \in MutPositions /\ p.cfg \in {"plain", "snappy"}             \* the node answers with a malformed frame
         /\ LET b == LiveBase(ExpectedAnswer(p.pos))
-           IN \/ \E m \in LiveMuts(b) : p' = CaseOf(p, MutName(m), b.kind, ApplyField(b, m).bytes)
-              \/ \E t \in LiveCuts(b) : p' = CaseOf(p, "MUT_trunc-body_" \o ToString(t), b.kind, TruncBody(b, t).bytes)
+           IN \/ \E m \in LiveMuts(b) : /\ (p.cfg = "plain" \/ m.f = "header.flags")  \* (with a compressor: the header flags)
+                                         /\ p' = CaseOf(p, MutName(m), b.kind, ApplyField(b, m).bytes)
+              \/ \E t \in LiveCuts(b) : (p.cfg = "plain") /\ p' = CaseOf(p, "MUT_trunc-body_" \o ToString(t), b.kind, TruncBody(b, t).bytes)
      \/ /\ p.pos # "idle" /\ p.pos \notin Passage /\ Wanted(p.cfg, p.pos)       \* the node answers with any kind
         /\ \/ \E i \in 1 .. Len(WellFormedVariants) :
                 p' = CaseOf(p, WellFormedVariants[i].n, WellFormedVariants[i].kind, WellFormedVariants[i].bytes)
